@@ -464,12 +464,42 @@ def plant(rng, w, kind):
 # named functions, state 1 has every such fact (same fluent values), further states draw both at random.
 AUX_PREDS = [("pz", []), ("pu", [("?a0", "object")]), ("pw", []), ("pv", [("?a0", "object")])]
 AUX_FUNCS = [("fz", []), ("fu", [("?a0", "object")])]
-# numerals that agree when printed with 2 decimals (the library's DEFAULT_DIGITS) and differ by far more than EPSILON
-FAR_PAIRS = [("0.001", "0.004"), ("0.004", "0.001"), ("0.501", "0.504"), ("1.004", "0.996"), ("2.3312", "2.3349"),
-             ("-0.004", "-0.001"), ("10.001", "10.004"), ("0.12", "0.1249"), ("3.0004", "3.004")]
+# numerals that agree when printed with D decimals and differ otherwise; D = the library's printing precisions, read
+# from the library on every run (conditions print with 2 decimals, expressions with 4; the comparison tolerance is 1e-4)
+EPS = 1e-4
+DIGITS = {"far": 2, "far4": 4}
+
+
+def configure(eps, condition_digits, expression_digits):
+    global EPS
+    EPS = eps
+    DIGITS["far"], DIGITS["far4"] = condition_digits, expression_digits
+
+
+def far_pairs(d):
+    u = 10.0 ** -(d + 1)
+    out = []
+    for b in (0.0, 0.5, 1.0, 2.33, -0.25, 10.0, 3.0):
+        out.append((b + u, b + 4 * u))
+        out.append((b + 4 * u, b + u))
+        if b:
+            out.append((b - 4 * u, b + 4 * u))
+    out.append((-4 * u, -u))
+    return [("%.*f" % (d + 1, x), "%.*f" % (d + 1, y)) for x, y in out] + \
+           [("%.*f" % (d + 1, x), "%.*f" % (d + 2, y + u / 2)) for x, y in out[:4]]
+
+
+def pairs_for(mode):
+    """mode: '...far...' -> agree to the precision of printed conditions, '...far4...' -> of printed expressions"""
+    if "near" in mode:
+        return NEAR_PAIRS
+    return far_pairs(DIGITS["far4" if "far4" in mode else "far"])
+
+
 # control: numerals that already differ in the first two decimals
 NEAR_PAIRS = [("0.01", "0.04"), ("0.5", "0.25"), ("1", "1.01"), ("2", "3")]
-LONG_NUMERALS = ["0.001", "0.0004", "0.3333", "1.0625", "123.456", "0.125", "2.71828", "-0.0015", "1000.001"]
+LONG_NUMERALS = ["0.001", "0.0004", "0.3333", "1.0625", "123.456", "0.125", "2.71828", "-0.0015", "1000.001", "0.00001",
+                 "0.123456", "5.00004", "-2.000002"]
 
 
 def ensure_aux(w):
@@ -478,10 +508,14 @@ def ensure_aux(w):
     w.funcs = list(w.funcs) + [f for f in AUX_FUNCS if f[0] not in have_f]
 
 
-def separating_values(c1, c2):
+def separating_values(c1, c2, cop=None):
+    """fluent values that tell a comparison with c1 from the same comparison with c2 (first: the most telling one).
+    '<=' holds up to c + EPS, '>=' from c - EPS, '=' within EPS of c, '<' and '>' are strict."""
     lo, hi = sorted([float(c1), float(c2)])
-    d = max(hi - lo, 0.002)
-    return [(lo + hi) / 2 if hi > lo else lo, lo - d, hi + d, lo, hi]
+    d = max(hi - lo, 2 * EPS, 0.002)
+    mid = (lo + hi) / 2 if hi > lo else lo
+    shift = {"<=": EPS, "=": EPS, ">=": -EPS}.get(cop, 0.0)
+    return [mid + shift, mid - shift, lo - d, hi + d, float(c1), float(c2)]
 
 
 def _terms(w, scope):
@@ -515,7 +549,7 @@ def _sibling(rng, w, scope, sop, const, min_lits=0):
         head = [rng.choice(["and", "or"])]
     cop = rng.choice(["<=", ">=", "<", ">", "="])
     items = [[cop, _zfl(rng, w, scope, must), const]]
-    for _ in range(max(min_lits, rng.choice([0, 1, 1, 1, 2]))):
+    for _ in range(max(min_lits, rng.choice([0, 1, 1, 1, 1, 2]))):
         lit = _zlit(rng, w, scope, must)
         if lit not in items:
             items.append(lit)
@@ -552,7 +586,7 @@ def _twin_of(rng, w, node, mode, c1, c2):
                 out.append(x)
         return out
     t = node
-    if mode in ("far", "far-swapped", "near"):
+    if mode in ("far", "far4", "far-swapped", "near"):
         t = repl(t)
     if mode in ("swapped", "far-swapped"):
         t = body_map(t, lambda b: [b[0]] + list(reversed(b[1:])))
@@ -568,7 +602,7 @@ def _twin_of(rng, w, node, mode, c1, c2):
 
 TWIN_SIBLINGS = ["or", "and", "forall"]
 TWIN_CONTEXTS = ["pre-root", "pre-nested-or", "pre-nested-and", "forall-body", "when-ante", "forall-when-ante"]
-TWIN_MODES = ["far", "far-swapped", "exact", "swapped", "near", "flip", "qtype"]
+TWIN_MODES = ["far", "far-swapped", "far4", "exact", "swapped", "near", "flip", "qtype"]
 
 
 def _insert_two(rng, items, s1, s2):
@@ -579,9 +613,21 @@ def _insert_two(rng, items, s1, s2):
     return items
 
 
-def _hints(a, c1, c2, tag):
-    return {"fluents": {"fz": separating_values(c1, c2), "fu": separating_values(c1, c2)}, "facts": ["pz", "pu"],
-            "focus": a["name"], "tag": tag}
+def _cop_of(node):
+    if isinstance(node, list):
+        if node and node[0] in ("<=", ">=", "<", ">", "=") and len(node) == 3 and isinstance(node[1], list) and node[1][0] in ("fz", "fu"):
+            return node[0]
+        for x in node:
+            c = _cop_of(x)
+            if c:
+                return c
+    return None
+
+
+def _hints(a, c1, c2, tag, node=None, types=()):
+    vals = separating_values(c1, c2, _cop_of(node))
+    return {"fluents": {"fz": vals, "fu": vals}, "facts": ["pz", "pu"],
+            "focus": a["name"], "tag": tag, "need_types": [t for t in types if t]}
 
 
 def s_twins(rng, w, a, variant):
@@ -590,7 +636,7 @@ def s_twins(rng, w, a, variant):
     if mode == "qtype" and (sop != "forall" or not w.types):
         return None
     ensure_aux(w)
-    c1, c2 = rng.choice(NEAR_PAIRS if mode == "near" else FAR_PAIRS)
+    c1, c2 = rng.choice(pairs_for(mode))
     scope = list(a["params"])
     qv = qty = None
     if ctx in ("forall-body", "forall-when-ante"):
@@ -602,13 +648,14 @@ def s_twins(rng, w, a, variant):
         return None
     if rng.random() < 0.3:
         s1, s2 = s2, s1
+    base = _and_body(a["pre"]) if rng.random() < 0.3 else ["and"]
     if ctx == "pre-root":
-        a["pre"] = ["and"] + _insert_two(rng, _and_body(a["pre"])[1:], s1, s2)
+        a["pre"] = ["and"] + _insert_two(rng, base[1:], s1, s2)
     elif ctx in ("pre-nested-or", "pre-nested-and"):
-        extra = [_zlit(rng, w, scope)] if rng.random() < 0.3 else []
-        a["pre"] = _and_body(a["pre"]) + [[ctx[11:]] + _insert_two(rng, extra, s1, s2)]
+        extra = [_zlit(rng, w, scope)] if rng.random() < 0.2 else []
+        a["pre"] = base + [[ctx[11:]] + _insert_two(rng, extra, s1, s2)]
     elif ctx == "forall-body":
-        a["pre"] = _and_body(a["pre"]) + [["forall", [qv, "-", qty], [rng.choice(["and", "or"]), s1, s2]]]
+        a["pre"] = base + [["forall", [qv, "-", qty], [rng.choice(["and", "or"]), s1, s2]]]
     elif ctx == "when-ante":
         a["pre"] = ["and"]
         res = rng.choice([["pw"], ["and", ["pw"]]])
@@ -617,10 +664,10 @@ def s_twins(rng, w, a, variant):
         a["pre"] = ["and"]
         res = rng.choice([["pv", qv], ["and", ["pv", qv]]])
         a["eff"] = a["eff"] + [["forall", [qv, "-", qty], ["when", [rng.choice(["and", "and", "or"]), s1, s2], res]]]
-    return _hints(a, c1, c2, "twins:%s:%s:%s" % variant)
+    return _hints(a, c1, c2, "twins:%s:%s:%s" % variant, s1, [qty] + [x[1][2] for x in (s1, s2) if x[0] == "forall"])
 
 
-LEAF_KINDS = ["num-far", "num-exact", "num-near", "lit-dup", "lit-contra", "leaf-after-compound-lit",
+LEAF_KINDS = ["num-far", "num-far4", "num-exact", "num-near", "lit-dup", "lit-contra", "leaf-after-compound-lit",
               "leaf-after-compound-num", "compound-after-leaf"]
 LEAF_CONTEXTS = ["pre-root", "pre-nested-or", "forall-body", "when-ante"]
 
@@ -630,7 +677,7 @@ def s_leaf_twins(rng, w, a, variant):
     compound condition that contains it (what a duplicate test that walks into nested conditions would drop)"""
     kind, ctx = variant
     ensure_aux(w)
-    c1, c2 = rng.choice(NEAR_PAIRS if kind == "num-near" else FAR_PAIRS)
+    c1, c2 = rng.choice(pairs_for(kind))
     scope = list(a["params"])
     qv = qty = must = None
     if ctx == "forall-body":
@@ -640,7 +687,7 @@ def s_leaf_twins(rng, w, a, variant):
     fl = _zfl(rng, w, scope, must)
     lit = _zlit(rng, w, scope, must, negate=0.3)
     neg = lit[1] if lit[0] == "not" else ["not", lit]
-    if kind in ("num-far", "num-near"):
+    if kind in ("num-far", "num-far4", "num-near"):
         pair = [[cop, fl, c1], [cop, fl, c2]]
     elif kind == "num-exact":
         pair = [[cop, fl, c1], [cop, fl, c1]]
@@ -655,20 +702,23 @@ def s_leaf_twins(rng, w, a, variant):
     else:
         pair = [rng.choice([lit, [cop, fl, c1]]), [rng.choice(["or", "and"]), lit, [cop, fl, c1]]]
     s1, s2 = pair
+    if rng.random() < 0.3:
+        s1, s2 = s2, s1
+    base = _and_body(a["pre"]) if rng.random() < 0.3 else ["and"]
     if ctx == "pre-root":
-        a["pre"] = ["and"] + _insert_two(rng, _and_body(a["pre"])[1:], s1, s2)
+        a["pre"] = ["and"] + _insert_two(rng, base[1:], s1, s2)
     elif ctx == "pre-nested-or":
-        a["pre"] = _and_body(a["pre"]) + [["or", s1, s2]]
+        a["pre"] = base + [["or", s1, s2]]
     elif ctx == "forall-body":
-        a["pre"] = _and_body(a["pre"]) + [["forall", [qv, "-", qty], [rng.choice(["and", "or"]), s1, s2]]]
+        a["pre"] = base + [["forall", [qv, "-", qty], [rng.choice(["and", "or"]), s1, s2]]]
     else:
         a["pre"] = ["and"]
         a["eff"] = a["eff"] + [["when", [rng.choice(["and", "or"]), s1, s2], ["pw"]]]
-    return _hints(a, c1, c2, "leaf-twins:%s:%s" % variant)
+    return _hints(a, c1, c2, "leaf-twins:%s:%s" % variant, [cop, fl, c1], [qty])
 
 
 WHEN_TWIN_KINDS = ["when", "forall-when"]
-WHEN_TWIN_MODES = ["far", "exact", "swapped", "near", "result-far"]
+WHEN_TWIN_MODES = ["far", "far4", "exact", "swapped", "near", "result-far", "result-far4"]
 
 
 def s_when_twins(rng, w, a, variant):
@@ -676,7 +726,7 @@ def s_when_twins(rng, w, a, variant):
     in a far decimal, exact copies, operand order; or the same shape with results whose constants agree to 2 decimals"""
     kind, mode = variant
     ensure_aux(w)
-    c1, c2 = rng.choice(NEAR_PAIRS if mode == "near" else FAR_PAIRS)
+    c1, c2 = rng.choice(pairs_for(mode))
     scope = list(a["params"])
     must = None
     if kind == "forall-when":
@@ -687,7 +737,7 @@ def s_when_twins(rng, w, a, variant):
     fl = _zfl(rng, w, scope, must)
     lit = _zlit(rng, w, scope, must)
     a["pre"] = ["and"]
-    if mode == "result-far":
+    if mode.startswith("result-far"):
         # antecedents that exclude one another, so that the two writes never meet
         neg = lit[1] if lit[0] == "not" else ["not", lit]
         k = rng.choice(["assign", "increase", "decrease"])
@@ -697,7 +747,7 @@ def s_when_twins(rng, w, a, variant):
         res = ["pv", must] if must else ["pw"]
         ante1 = ["and", lit, [cop, fl, c1]] if rng.random() < 0.6 or mode == "swapped" else [cop, fl, c1]
         ante2 = ante1
-        if mode in ("far", "near"):
+        if mode in ("far", "far4", "near"):
             ante2 = [cop, fl, c2] if ante1[0] != "and" else ["and", lit, [cop, fl, c2]]
         elif mode == "swapped":
             ante2 = ["and", [cop, fl, c1], lit]
@@ -705,7 +755,7 @@ def s_when_twins(rng, w, a, variant):
     if kind == "forall-when":
         e1, e2 = ["forall", [must, "-", qty], e1], ["forall", [must, "-", qty], e2]
     a["eff"] = ["and"] + _insert_two(rng, a["eff"][1:], e1, e2)
-    return _hints(a, c1, c2, "when-twins:%s:%s" % variant)
+    return _hints(a, c1, c2, "when-twins:%s:%s" % variant, [cop, fl, c1], [qty if must else None])
 
 
 def _deep(rng, w, scope, depth, used):
@@ -982,6 +1032,8 @@ def shape(rng, w, key):
 def hinted_state(rng, w, objs, hints, k):
     """probe state number k of a hinted world (see SHAPES)"""
     st = G.gen_state(rng, w, objs, density=hints.get("density"))
+    # the predicates that shapes use as results of conditional effects start false, so that firing shows
+    st["facts"] = [x for x in st["facts"] if x[0] not in ("pw", "pv")]
     if hints.get("distinct_calls"):
         st["fluents"] = [x for x in st["fluents"] if len(set(x[1])) == len(x[1])]
     if hints.get("random_only"):
